@@ -11,7 +11,7 @@ import z3
 
 from . import common, e3, c05
 from .common import log
-from .mir import engine as mir_engine, exec as mx, cmpcfg
+from .mir import engine as mir_engine, exec as mx, cmpcfg, streams
 from .mir.cmpcfg import FieldAtoms
 
 PID = "C17"
@@ -51,7 +51,9 @@ def classify(arg):
 
 def check_body(eng, obl, out, kind, nv=1, nf=1, keep=None):
     """every existing, non-ignored field of every variant gets exactly the documented assertion"""
-    ex = eng.executor(opaque_local=c05.OPAQUE, trace={"build_eq_checker"}, slice_bound=max(nv, nf))
+    ex = eng.executor(opaque_local=c05.OPAQUE, trace={"build_eq_checker", "VariantEntry::make_pat_with_self_path"} | set(streams.FLOW_CALLS), slice_bound=max(nv, nf))
+    ex.unique_streams = True
+    ex.trace_returns = {"build_eq_checker"}
     fn = eng.find("build_eq_body")
     pre = [z3.Not(ex.bvar("use_bounds")), ex.ivar("disc(source)", 0, 1) == (0 if kind == "struct" else 1)]
     fields = []  # (base, exists)
@@ -81,6 +83,23 @@ def check_body(eng, obl, out, kind, nv=1, nf=1, keep=None):
             continue  # refusals are C05's subject
         conj = []
         infos = []
+        # token data flow: an assertion counts only if its tokens end up in the returned stream - for an enum inside the arm whose pattern is
+        # `make_pat_with_self_path` of the field's own variant
+        result_id = streams.sid(ex.summ(mx.State(), r.value.fields[0])) if r.value.fields else None
+        reach, _ = streams.reach_set(r.events, result_id) if result_id else (set(), [])
+        pending, placed = None, []   # (argument summary, stream id of the built checker)
+        for e in r.events:
+            if e[0] == "build_eq_checker":
+                pending = e[1][0]
+            elif e[0] == "ret:build_eq_checker" and pending is not None:
+                placed.append((pending, streams.sid(e[1][0])))
+                pending = None
+        arms = {}  # variant base -> ids of the streams inside its arm
+        for src, dst in streams.flows(r.events):
+            m = re.match(r"opaque:VariantEntry::make_pat_with_self_path\(sym:(source\.<Enum>\.1\.\[\d+\]),str:_this,", src)
+            if m and dst in reach:
+                arms[m.group(1)] = streams.reach_set(r.events, dst)[0]
+        dropped = []
         for base, exists in fields:
             fa = FieldAtoms(ex, base)
             alive = z3.And(exists, z3.Not(fa.ignored("Eq")))
@@ -91,7 +110,15 @@ def check_body(eng, obl, out, kind, nv=1, nf=1, keep=None):
             }
             # `by` is looked at before `key` inside one attribute; eq before ord
             none_cond = z3.Or(z3.Not(alive), fa.by("eq"), z3.And(z3.Not(fa.key("eq")), fa.by("ord")))
-            calls = [classify(e[1][0]) for e in r.events if e[0] == "build_eq_checker" and ("sym:%s." % base in e[1][0] or "sym:%s)" % base in e[1][0] or "sym:%s," % base in e[1][0])]
+            mine = [(a, sid_) for a, sid_ in placed if ("sym:%s." % base in a or "sym:%s)" % base in a or "sym:%s," % base in a)]
+            calls = []
+            for a, sid_ in mine:
+                vbase = base.rsplit(".fields.", 1)[0] if kind == "enum" else None
+                ok_flow = sid_ in reach and (kind == "struct" or sid_ in arms.get(vbase, ()))
+                if ok_flow:
+                    calls.append(classify(a))
+                else:
+                    dropped.append((base, classify(a), "not in the returned stream" if sid_ not in reach else "not inside the arm matched by its own variant's pattern"))
             if len(calls) == 0:
                 conj.append(none_cond)
             elif len(calls) == 1 and calls[0] in want:
@@ -102,7 +129,7 @@ def check_body(eng, obl, out, kind, nv=1, nf=1, keep=None):
         total_calls = sum(1 for e in r.events if e[0] == "build_eq_checker")
         if total_calls != sum(len(c) for _, _, c in infos):
             conj.append(z3.BoolVal(False))  # an assertion on something that is no field of the type
-        obl.check_unsat(ex, tag + ":asserted-component", list(r.pc) + [z3.Not(z3.And(conj))], info=(kind, infos, ex), keep_smt=True)
+        obl.check_unsat(ex, tag + ":asserted-component", list(r.pc) + [z3.Not(z3.And(conj))], info=(kind, infos, ex, dropped), keep_smt=True)
     e3.coverage_check(ex, obl, tag, [r for r in res if r.kind != "stuck"], pre=pre) if not stuck else None
     if res:
         r = res[len(res) // 2]
@@ -174,17 +201,61 @@ def check_placement(eng, obl, out):
                     out.violation("body-placement|" + op, "-", "the method body of %s is not interpolated into the generated impl: %s" % (op, ts[:400]))
 
 
+FORMS = ("plain", "generic", "tuple")
+
+
+def concretise(kind, decls, form):
+    """-> (derive_ex argument list, item text, accessor(vi, fi)) for one way of writing the model down.
+    plain: named fields of a non-Eq type; generic: fields of a type parameter with an explicit `bound()` on Eq (no automatic bounds, as in the obligation);
+    tuple (enum only): tuple variants with an ignored field in front, so that binder positions matter"""
+    attr = "Eq, PartialEq, Hash, PartialOrd, Ord" if form != "generic" else "Eq(bound()), PartialEq, Hash, PartialOrd, Ord"
+    ty = "T" if form == "generic" else "NotEq"
+    gen = "<T>" if form == "generic" else ""
+    if kind == "struct":
+        if form == "tuple":
+            return None
+        item = "struct X%s { %s }" % (gen, ", ".join("%s f%d: %s" % (" ".join(a), fi, ty) for vi, fi, a, _, _ in decls))
+        return attr, item, (lambda vi, fi: "(this . f%d)" % fi)
+    byv = {}
+    for vi, fi, a, _, _ in decls:
+        byv.setdefault(vi, []).append((fi, a))
+    nvv = (max(byv) + 1) if byv else 1
+    if form == "tuple":
+        vs = []
+        for v in range(nvv):
+            fs = ["#[eq(ignore)] u8"] + ["%s %s" % (" ".join(a), ty) for fi, a in sorted(byv.get(v, []))]
+            vs.append("V%d(%s)" % (v, ", ".join(fs)))
+        pos = {(vi, fi): 1 + sorted(f for f, _ in byv[vi]).index(fi) for vi, fi, _, _, _ in decls}
+        return attr, "enum X%s { %s }" % (gen, ", ".join(vs)), (lambda vi, fi: "(* _this_%d)" % pos[(vi, fi)])
+    item = "enum X%s { %s }" % (gen, ", ".join("V%d { %s }" % (v, ", ".join("%s f%d: %s" % (" ".join(a), fi, ty) for fi, a in byv.get(v, []))) for v in range(nvv)))
+    return attr, item, (lambda vi, fi: "(* _this_f%d)" % fi)
+
+
+def binders_misplaced(out_text):
+    """tuple-variant patterns of the assertion function: binder `_this_<k>` must sit at tuple position k"""
+    m = re.search(r"fn _f .*?match this \{(.*)", out_text, re.S)
+    if not m:
+        return None
+    for pm in re.finditer(r"X :: (\w+) \(([^()]*)\) =>", m.group(1)):
+        for pos, b in enumerate(x.strip() for x in pm.group(2).split(",") if x.strip()):
+            bm = re.fullmatch(r"_this_(\d+)", b)
+            if bm and int(bm.group(1)) != pos:
+                return "variant %s binds `%s` at tuple position %d" % (pm.group(1), b, pos)
+    return None
+
+
 def replay_failures(obl, out):
     from . import replay_e3
     n = 0
+    seen_items = set()
     for label, model, info in obl.failed:
         if label.startswith("coverage:"):
             out.broken.append("path conditions do not cover the configuration space: " + label)
             continue
-        kind, infos, ex = info
+        kind, infos, ex, dropped = info
         tv = lambda e: z3.is_true(model.eval(e, model_completion=True))
         # rebuild the whole item from the model; the needle is the assertion of the first field whose documented condition fails
-        decls, culprit = [], None
+        decls = []
         for idx, (fa, exists, calls) in enumerate(infos):
             if not tv(exists):
                 continue
@@ -192,58 +263,81 @@ def replay_failures(obl, out):
             m = re.search(r"\[(\d+)\]\.fields\.\[(\d+)\]$|\.\[(\d+)\]$", fa.base)
             vi, fi = (int(m.group(1)), int(m.group(2))) if m.group(1) is not None else (0, int(m.group(3)))
             decls.append((vi, fi, attrs, fa, calls))
-        if kind == "struct":
-            item = "struct X { %s }" % ", ".join("%s f%d: NotEq" % (" ".join(a), fi) for vi, fi, a, _, _ in decls)
-            acc = lambda vi, fi: "(this . f%d)" % fi
-        else:
-            byv = {}
-            for vi, fi, a, _, _ in decls:
-                byv.setdefault(vi, []).append("%s f%d: NotEq" % (" ".join(a), fi))
-            nvv = (max(byv) + 1) if byv else 1
-            item = "enum X { %s }" % ", ".join("V%d { %s }" % (v, ", ".join(byv.get(v, []))) for v in range(nvv))
-            acc = lambda vi, fi: "(* _this_f%d)" % fi
-        case = None
-        for vi, fi, attrs, fa, calls in decls:
-            alive = not tv(fa.ignored("Eq"))
-            if alive and tv(fa.rejects("Eq")):
-                case = {"property": PID, "kind": "reject_trait", "trait": "Eq", "mode": "attr", "attr": "Eq, PartialEq, Hash, PartialOrd, Ord", "item": item, "expected_reject": True,
-                        "explain": "customised comparison elsewhere while Eq would fall back to the field's own impl: must be refused, MIR path asserts %s" % (calls,)}
-                break
-            if not alive or tv(fa.by("eq")) or (not tv(fa.key("eq")) and tv(fa.by("ord"))):
-                needle, expected, docs = "_eq (& (%s" % acc(vi, fi), False, ()
-            elif tv(fa.key("eq")):
-                needle, expected, docs = "_eq (& (%s . k_eq ()))" % acc(vi, fi), True, ("key", "eq")
-            elif tv(fa.key("ord")):
-                needle, expected, docs = "_eq (& (%s . k_ord ()))" % acc(vi, fi), True, ("key", "ord")
-            else:
-                needle, expected, docs = "_eq (& (%s))" % acc(vi, fi), True, ("field",)
-            got = tuple(calls[0]) if len(calls) == 1 else tuple(calls)
-            if (expected and got != docs) or (not expected and calls):
-                case = {"property": PID, "kind": "contains", "mode": "attr", "attr": "Eq, PartialEq, Hash, PartialOrd, Ord", "item": item, "needle": needle, "expected": expected,
-                        "explain": "MIR path asserts %s for field f%d of variant %d" % (calls, fi, vi)}
-                break
-        if case is None:
-            out.broken.append("failed obligation %s could not be turned into a concrete case: %s" % (label, item))
+        sig = (kind, tuple((vi, fi, tuple(a), tuple(c)) for vi, fi, a, _, c in decls), bool(dropped))
+        if sig in seen_items:
             continue
-        obs = replay_e3.observe(case)
-        n += 1
-        path = e3.write_replay(PID, "case%03d" % n, case)
-        if case["kind"] == "reject_trait":
+        seen_items.add(sig)
+        confirmed = tried = False
+        for form in FORMS:
+            conc = concretise(kind, decls, form)
+            if conc is None:
+                continue
+            attr, item, acc = conc
+            case = None
+            for vi, fi, attrs, fa, calls in decls:
+                alive = not tv(fa.ignored("Eq"))
+                if alive and tv(fa.rejects("Eq")):
+                    case = {"property": PID, "kind": "reject_trait", "trait": "Eq", "mode": "attr", "attr": attr, "item": item, "expected_reject": True,
+                            "explain": "customised comparison elsewhere while Eq would fall back to the field's own impl: must be refused, MIR path asserts %s" % (calls,)}
+                    break
+                if not alive or tv(fa.by("eq")) or (not tv(fa.key("eq")) and tv(fa.by("ord"))):
+                    needle, expected, docs = "_eq (& (%s" % acc(vi, fi), False, ()
+                elif tv(fa.key("eq")):
+                    needle, expected, docs = "_eq (& (%s . k_eq ()))" % acc(vi, fi), True, ("key", "eq")
+                elif tv(fa.key("ord")):
+                    needle, expected, docs = "_eq (& (%s . k_ord ()))" % acc(vi, fi), True, ("key", "ord")
+                else:
+                    needle, expected, docs = "_eq (& (%s))" % acc(vi, fi), True, ("field",)
+                got = tuple(calls[0]) if len(calls) == 1 else tuple(calls)
+                if (expected and got != docs) or (not expected and calls):
+                    case = {"property": PID, "kind": "contains", "mode": "attr", "attr": attr, "item": item, "needle": needle, "expected": expected,
+                            "explain": "MIR path asserts %s for field f%d of variant %d%s" % (calls, fi, vi, "; built but not placed: %s" % (dropped,) if dropped else "")}
+                    break
+            if case is None:
+                continue
+            tried = True
+            obs = replay_e3.observe(case)
+            if case["kind"] == "reject_trait":
+                if replay_e3.disagrees(case, obs):
+                    n += 1
+                    path = e3.write_replay(PID, "case%03d" % n, case)
+                    out.violation("eq-not-refused|%s|%s" % (kind, common.norm(item)[:80]), path,
+                                  "derive_ex(Eq) is accepted although the compared value is not the one asserted to be Eq: #[derive_ex(%s)] %s" % (case["attr"], item))
+                    confirmed = True
+                    break
+                continue
+            if "Eq" in obs["rejected_traits"]:
+                confirmed = True  # Eq itself is refused by the macro: C05's subject
+                break
+            bad_bind = binders_misplaced(obs.get("out", "")) if form == "tuple" else None
             if replay_e3.disagrees(case, obs):
-                out.violation("eq-not-refused|%s|%s" % (kind, common.norm(item)[:80]), path,
-                              "derive_ex(Eq) is accepted although the compared value is not the one asserted to be Eq: #[derive_ex(%s)] %s" % (case["attr"], item))
+                n += 1
+                path = e3.write_replay(PID, "case%03d" % n, case)
+                out.violation("asserted-component|%s|%s|%s" % (kind, form, common.norm(item)[:80]), path,
+                              "the hidden Eq assertion %s `%s` for: #[derive_ex(%s)] %s" % ("lacks" if case["expected"] else "contains", case["needle"], case["attr"], item))
+                confirmed = True
+                break
+            if bad_bind:
+                n += 1
+                case = {"property": PID, "kind": "eq_binders", "mode": "attr", "attr": attr, "item": item,
+                        "explain": "the assertion is made on a binder that is bound to another field of the variant: " + bad_bind}
+                path = e3.write_replay(PID, "case%03d" % n, case)
+                out.violation("asserted-component|%s|%s|binder|%s" % (kind, form, common.norm(item)[:80]), path,
+                              "the hidden Eq assertion checks the wrong field (%s) for: #[derive_ex(%s)] %s" % (bad_bind, attr, item))
+                confirmed = True
+                break
+        if not confirmed:
+            msg = "%s: %s" % (label, concretise(kind, decls, "plain")[1] if decls else "(no field)")
+            if dropped:
+                # the token-flow view of the executor says an assertion is built but not placed; the real expansion shows it in place in every written form
+                out.inconclusive.append("fn=build_eq_body reason=token flow not followed (%s), not reproduced natively: %s" % (dropped[0][2], msg))
+            elif tried:
+                out.broken.append("UNCONFIRMED counterexample for " + msg)
             else:
-                out.broken.append("UNCONFIRMED counterexample for %s: %s" % (label, item))
-            continue
-        if "Eq" in obs["rejected_traits"]:
-            continue  # Eq itself is refused by the macro: C05's subject
-        if replay_e3.disagrees(case, obs):
-            out.violation("asserted-component|%s|%s" % (kind, common.norm(item)[:80]), path,
-                          "the hidden Eq assertion %s `%s` for: #[derive_ex(%s)] %s" % ("lacks" if case["expected"] else "contains", case["needle"], case["attr"], item))
-        else:
-            out.broken.append("UNCONFIRMED counterexample for %s: %s" % (label, item))
+                out.broken.append("failed obligation could not be turned into a concrete case: " + msg)
         if n >= 6:
             break
+    out.inconclusive[:] = list(dict.fromkeys(out.inconclusive))
 
 
 def run(tier):
